@@ -44,6 +44,11 @@ RULE = (
     '(not that name: refused / not counted as supplied; origin look-alikes counted only); every case of the input-'
     'class and state families ends with the aliasing checks (write in place into the computed coordinates of the '
     'result: input unchanged, same call gives the original result; write into the arguments: result unchanged); '
+    '~750 cases without the origin coordinate / with quantities of the derivation supplied (for every origin x target x '
+    'scatter and every quantity on the way to the target per the model: that quantity or the target itself supplied '
+    'with and without the origin coordinate, dense or as event coordinate; origin absent and nothing else supplied; '
+    'pipelines: convert to an intermediate / the target / an unrelated quantity, drop the origin coordinate, convert '
+    'on under the same origin name - derivable from what is present is answered, else RuntimeError); '
     'shards 0-3 each start one new interpreter that imports only the module of convert() and makes three calls '
     '(outcome = model, coordinate bit-identical to the worker\'s); one extra shard per run holds 12 conversions '
     'on 2**20 + 7 pixels / 3 x 400001 events / 2**20 + 7 events in ragged bins; distinct = configurations x '
@@ -64,7 +69,8 @@ AUX = ['ub_matrix', 'sample_rotation', 'pulse_time']
 UNIT = {'tof': 'us', 'wavelength': 'angstrom', 'energy': 'meV', 'Q': '1/angstrom', 'dspacing': 'angstrom',
         'energy_transfer': 'meV', 'time_at_sample': 'us', 'L1': 'm', 'L2': 'm', 'Ltotal': 'm', 'two_theta': 'rad',
         'incident_beam': 'm', 'scattered_beam': 'm', 'Qx': '1/angstrom', 'Q_vec': '1/angstrom',
-        'hkl_vec': 'dimensionless', 'h': 'dimensionless'}
+        'hkl_vec': 'dimensionless', 'h': 'dimensionless', 'Qy': '1/angstrom', 'Qz': '1/angstrom',
+        'k': 'dimensionless', 'l': 'dimensionless'}
 KERNEL_NODE = {
     'straight_incident_beam': 'incident_beam', 'straight_scattered_beam': 'scattered_beam', 'L1': 'L1', 'L2': 'L2',
     'two_theta': 'two_theta', 'total_beam_length': 'Ltotal', 'total_straight_beam_length_no_scatter': 'Ltotal',
@@ -219,7 +225,11 @@ def build(rng, origin, present, values, container, binned, outer=None, noevents=
     def pixel_mask(k):
         return sc.array(dims=['pixel'], values=(np.arange(n) + k) % 2 == 0)
 
-    coords = {nm: var(nm) for nm in [*present, *AUX]}
+    # coordinates of the derivation other than the geometry / energy ones (an intermediate quantity, the target
+    # itself) supplied by the caller; the origin coordinate itself may be absent
+    supply = list(opts.get('supply') or ())
+    evname = opts.get('evcoord', origin)   # the coordinate the events carry (None: events without coordinates)
+    coords = {nm: var(nm) for nm in [*present, *AUX, *(x for x in supply if not (binned and x == evname))]}
     masks = opts.get('masks')
     if binned:
         # one event per pixel unless `counts` says otherwise: event coordinate = origin
@@ -230,11 +240,15 @@ def build(rng, origin, present, values, container, binned, outer=None, noevents=
             zero = sc.zeros(dims=['pixel'], shape=[n], dtype='int64', unit=None)
             data = sc.bins(begin=zero, end=zero.copy(), dim=evdim, data=ev)
         else:
-            x = np.asarray(values[origin])
-            oc = sc.array(dims=[evdim], values=x, unit=UNIT[origin])
-            if varname == origin:
-                oc = _set_variances(oc, variances)
-            ev = sc.DataArray(weights(evdim, len(x)), coords={origin: oc})
+            if evname is None:
+                ev = sc.DataArray(weights(evdim, n))
+                x = np.zeros(n)
+            else:
+                x = np.asarray(values[evname])
+                oc = sc.array(dims=[evdim], values=x, unit=UNIT[evname])
+                if varname == evname:
+                    oc = _set_variances(oc, variances)
+                ev = sc.DataArray(weights(evdim, len(x)), coords={evname: oc})
             if masks in ('event', 'both'):
                 ev.masks[mask_names[0]] = sc.array(dims=[evdim], values=np.arange(len(x)) % 3 == 1)
             end = np.cumsum(counts if counts is not None else np.ones(n, dtype=np.int64))
@@ -245,7 +259,8 @@ def build(rng, origin, present, values, container, binned, outer=None, noevents=
         if masks in ('bin', 'both'):
             da.masks[mask_names[1]] = pixel_mask(1)
     else:
-        coords[origin] = var(origin)
+        if not opts.get('drop_origin'):
+            coords[origin] = var(origin)
         if opts.get('items') == 0:
             # a container without data items: the coordinates belong to the Dataset itself
             return sc.Dataset(coords=coords)
@@ -732,6 +747,11 @@ def run_config(rng, ctx, scn, CV, watch, index, tracer, variant=None):
         values[ax['neutral']] = np.zeros_like(values[ax['neutral']])
     select = special = None
     vn, vvar = ax.get('var'), None
+    # coordinates of the derivation other than the 11 geometry / energy ones that the caller supplies (an intermediate
+    # quantity, the target itself); the origin coordinate may be absent altogether
+    supply, drop_origin = list(ax.get('supply') or ()), bool(ax.get('drop_origin'))
+    if supply or drop_origin:
+        values.update(extra_values(rng, n))
     if variant is None:
         container = 'dataset' if index % 3 == 0 else 'dataarray'
         binned = index % 4 == 1
@@ -753,7 +773,10 @@ def run_config(rng, ctx, scn, CV, watch, index, tracer, variant=None):
             opts = {'n': n, 'counts': counts, 'var': (vn, vvar) if vn else None, 'datavar': ax.get('datavar'),
                     'masks': ax.get('masks'), 'mask_names': (target, origin), 'evdim': ax.get('evdim', 'event'),
                     'items': 0 if ax.get('items') == 0 else 2 if ax.get('items') == 2 else None,
-                    'subclass': ax.get('subclass')}
+                    'subclass': ax.get('subclass'), 'supply': supply, 'drop_origin': drop_origin}
+            if drop_origin:
+                # events carry one of the four time-of-flight-like quantities if one is supplied, else no coordinate
+                opts['evcoord'] = supply[0] if supply and supply[0] in ORIGIN_RANGE else None
         data = build(rng, origin, present, values, container, binned, noevents=select == 'noevents', opts=opts)
         if select in SLICES:
             data = data['pixel', SLICES[select]]
@@ -781,13 +804,16 @@ def run_config(rng, ctx, scn, CV, watch, index, tracer, variant=None):
         data.coords[look] = data.coords[nm]
         del data.coords[nm]
         present = [x for x in present if x != nm]
-    have = [*present, *AUX, origin]
+    have = [*present, *AUX, *supply, *(() if drop_origin else (origin,))]
     verdict, nodes, mode = G.decide(origin, target, scatter, have)
     if ax.get('target_form'):
         verdict, nodes = 'refuse', 'no coordinate and no rule of that name'
     case = {'origin': origin, 'target': target, 'scatter': scatter, 'present': present, 'container': container,
             'binned': binned, 'model': verdict, 'model_detail': nodes, 'index': index, 'outer_dim': outer,
             'unaligned': unaligned}
+    if supply or drop_origin:
+        case['also_supplied'] = supply
+        case['origin_coordinate_present'] = not drop_origin
     vkeys = {}
     if ax:
         case['variant'] = {k: v for k, v in variant.items() if k not in ('container', 'binned', 'axis')}
@@ -829,11 +855,11 @@ def run_config(rng, ctx, scn, CV, watch, index, tracer, variant=None):
             return CV.deduce_conversion_graph(data=d, origin=o_arg, target=t_arg, scatter=scatter_arg)
         return CV.deduce_conversion_graph(d, o_arg, target=t_arg, scatter=scatter_arg)
 
-    def first_call(d, want, step):
+    def first_call(d, want, step, t=None):
         """An earlier call of a sequence; judged against the model like any other.  ('ok', res) / ('refuse', None) /
         None after a violation."""
         try:
-            r = call(d)
+            r = call(d) if t is None else call(d, t)
             got = 'ok'
         except RuntimeError as e:
             r, got = None, 'refuse'
@@ -895,6 +921,28 @@ def run_config(rng, ctx, scn, CV, watch, index, tracer, variant=None):
             ctx.count(f'inplace:{pre[7:]}:coordinates_written', n_mod)
             if snap and n_mod:
                 check_result_keeps(ctx, r1[1], snap, case, vkeys, 'first call')
+        elif pre == 'pipeline':
+            # a pipeline: first step origin -> an intermediate quantity (or the target), then the caller drops the
+            # origin coordinate and converts on, still naming the origin.  What is present then is what the first result
+            # carries (read off the data handed to the second call).
+            t1 = ax['via']
+            v1 = G.decide(origin, t1, scatter, have)[0]
+            r1 = first_call(data, v1, f'first step {origin}->{t1}', t=form(t1))
+            if r1 is None:
+                return
+            ctx.count('pipeline:first_step:' + v1)
+            if v1 != 'ok':
+                return
+            data = drop_origin_coord(r1[1], origin, binned)
+            found = read_coords(data, binned)
+            values = {**values, **found}
+            present = [x for x in G.SUBSET if x in found]
+            supply, drop_origin = [x for x in found if x not in G.SUBSET], True
+            have = [*present, *AUX, *supply]
+            verdict, nodes, mode = G.decide(origin, target, scatter, have)
+            case.update({'first_step': f'{origin}->{t1}, then {origin} dropped', 'present': present,
+                         'also_supplied': supply, 'origin_coordinate_present': False, 'model': verdict,
+                         'model_detail': nodes})
         elif pre == 'after_refusal':
             miss = ax['miss']
             saved = data.coords[miss]
@@ -935,7 +983,7 @@ def run_config(rng, ctx, scn, CV, watch, index, tracer, variant=None):
     ctx.count('model:' + verdict)
     if ax:
         for c in ax['cls']:
-            ctx.hit((AXIS_CLASSES | HEAVY_CLASSES | STATE_CLASSES)[c])
+            ctx.hit((AXIS_CLASSES | HEAVY_CLASSES | STATE_CLASSES | ORIGIN_CLASSES)[c])
             ctx.count(f'class:{c}:{verdict}')
     elif variant is not None:
         ctx.hit(CONTENTS[vkeys['contents']])
@@ -1020,7 +1068,7 @@ def run_config(rng, ctx, scn, CV, watch, index, tracer, variant=None):
                               'different from the one convert returned', case, via='transform_coords')
     # ---- a supplied coordinate is still the supplied one afterwards (never replaced by a derived one)
     if variant is not None or index % 4 == 2:
-        check_supplied(ctx, data, res, present, case, vkeys)
+        check_supplied(ctx, data, res, [*present, *supply], case, vkeys)
     # ---- kernels that ran = derivation the model predicts (never a quantity of the wrong mode)
     want_k = sorted(expected_kernel(nd, table[nd], mode) for nd in nodes)
     if ax.get('items') == 2:
@@ -1075,6 +1123,9 @@ def run_config(rng, ctx, scn, CV, watch, index, tracer, variant=None):
         with np.errstate(all='ignore'):
             if not g.size:
                 err = np.zeros(g.shape)
+            elif not nodes and (supply or drop_origin):
+                # the target itself was supplied: it is the answer, bit for bit
+                err = (g != w).astype(np.float64)
             elif target in ('two_theta',):
                 err = np.abs(g - w)
             elif target == 'energy_transfer':
@@ -1178,7 +1229,7 @@ def run_config(rng, ctx, scn, CV, watch, index, tracer, variant=None):
                              'shape': 'shape differs from the values'}[how], case, target=target, origin=origin,
                           how=how)
     # ---- (l) the result and the arguments are values of their own
-    if ax and ax['family'] != 'heavy':
+    if ax and ax['family'] not in ('heavy', 'origin'):
         alias_checks(ctx, data, res, call, values, present, origin, binned, pixdim, case, vkeys)
 
 
@@ -1484,6 +1535,146 @@ def state_plan(seed):
     return out
 
 
+# ------------------------------------------------------------ origin coordinate absent / intermediates supplied ---
+# "returns the target ... from the coordinates that were present (a supplied coordinate takes precedence over one that
+# could be derived), or raises RuntimeError because the target is not derivable from what was supplied": the origin
+# names the graph, it is not a precondition.  Data that carry an intermediate quantity of the derivation (or the target
+# itself) need not carry the origin coordinate; data that carry both get the supplied intermediate, not the derived one.
+ORIGIN_CLASSES = {
+    'no_origin:intermediate': 'origin coordinate absent, an intermediate quantity of the derivation supplied',
+    'no_origin:target': 'origin coordinate absent, the target coordinate itself supplied',
+    'no_origin:nothing': 'origin coordinate absent, geometry / energy coordinates only',
+    'no_origin:pipeline': 'second step of a pipeline: converted to an intermediate quantity / the target, origin '
+                          'coordinate dropped, converted on under the same origin name',
+    'with_origin:intermediate': 'origin coordinate present and an intermediate quantity of the derivation supplied',
+    'with_origin:target': 'origin coordinate present and the target coordinate itself supplied',
+}
+_GROUPS = {'Qxyz': ['Qx', 'Qy', 'Qz'], 'hkl': ['h', 'k', 'l']}
+
+
+def extra_values(rng, n):
+    """Random values (inconsistent with everything else) for the quantities convert() can compute."""
+    v = {'dspacing': rng.uniform(0.5, 5, size=n), 'energy_transfer': rng.uniform(-5, 15, size=n),
+         'time_at_sample': rng.uniform(1e4, 2e5, size=n), 'Q_vec': rng.normal(size=(n, 3)) * 2,
+         'hkl_vec': rng.normal(size=(n, 3)) * 3}
+    for nm in ('Qx', 'Qy', 'Qz'):
+        v[nm] = rng.normal(size=n) * 2
+    for nm in ('h', 'k', 'l'):
+        v[nm] = rng.normal(size=n) * 3
+    return v
+
+
+_MODEL_UNIT = {**UNIT, 'position': 'm', 'source_position': 'm', 'sample_position': 'm', 'incident_energy': 'meV',
+               'final_energy': 'meV'}
+
+
+def drop_origin_coord(res, origin, binned):
+    """`res` without the coordinate `origin` (dense or event coordinate), by the documented scipp calls."""
+    def one(da):
+        if da.bins is not None and origin in da.bins.coords:
+            da = da.bins.drop_coords(origin)
+        return da.drop_coords(origin) if origin in da.coords else da
+
+    if isinstance(res, sc.Dataset):
+        if len(res) == 0:
+            return res.drop_coords(origin) if origin in res.coords else res
+        return sc.Dataset({k: one(v) for k, v in res.items()})
+    return one(res)
+
+
+def read_coords(data, binned):
+    """{name: long double values in the units of the model} of every coordinate of `data` the model knows."""
+    obj = _item(data)
+    names = list(obj.coords)
+    if isinstance(obj, sc.DataArray) and obj.bins is not None:
+        names += list(obj.bins.coords)
+    out = {}
+    for nm in names:
+        if nm not in _MODEL_UNIT or nm in AUX:
+            continue
+        vals, unit, _ = get_coord(data, nm, binned)
+        want = sc.Unit(_MODEL_UNIT[nm])
+        f = si.LD(1) if unit == want else si.factor(unit) / si.factor(want)
+        out[nm] = np.asarray(vals).astype(si.LD) * f
+    return out
+
+
+def derivation_nodes(origin, target, table):
+    """The quantities on the way from the coordinates of the quantifier to `target` (target first): every name the
+    derivation of `target` may read that is neither one of the 11 geometry / energy coordinates, nor an auxiliary
+    input, nor the origin."""
+    out = []
+
+    def walk(name):
+        node = G.node_of(name)
+        if name in AUX or name in G.SUBSET or name == origin or node in out:
+            return
+        out.append(node)
+        for inp in table.get(node, ()):
+            walk(inp)
+
+    walk(target)
+    return out
+
+
+def origin_plan(seed):
+    """[(index, variant)]: for every (origin, target, scatter) and every quantity of the derivation (from the
+    executable model): that quantity supplied - without the origin coordinate on the geometry subset from which the
+    model then derives the target and on one other subset, with the origin coordinate on one subset - and the origin
+    coordinate absent with nothing else supplied (everything / positions only)."""
+    out, rot = [], {}
+
+    def nxt(key, options):
+        k = rot.get(key, 0)
+        rot[key] = k + 1
+        return options[k % len(options)]
+
+    def emit(base, sub, cls, supply, drop, **more):
+        index = _subset_index(base, sub)
+        origin, target, scatter, _ = config_of(index)
+        have = [*sub, *AUX, *supply, *(() if drop else (origin,))]
+        verdict = G.decide(origin, target, scatter, have)[0]
+        j = nxt(('layout', cls, verdict), range(4))
+        out.append((index, {'container': ('dataarray', 'dataset')[j % 2], 'binned': bool(j // 2), 'copy': False,
+                            'axis': {'family': 'origin', 'cls': [cls], 'supply': supply, 'drop_origin': drop,
+                                     **more}}))
+
+    for base in range(4 * 16 * 2):
+        origin, target, scatter, _ = config_of(base * 2048)
+        en = ('incident_energy', 'final_energy')[(base // 2) % 2]
+        extra = [en] if target == 'energy_transfer' else []
+        mode = {'incident_energy': 'direct_inelastic', 'final_energy': 'indirect_inelastic'}[en] if extra else 'elastic'
+        table = G.rules(origin, target, scatter, mode)
+        full, pos = [*G.SUBSET[:9], *extra], [*_POSITIONS, *extra]
+        for sub in (full, pos):
+            emit(base, sub, 'no_origin:nothing', [], True)
+        dn = derivation_nodes(origin, target, table)
+        # a pipeline through a quantity that is not on the way to the target (mostly: nothing to go on from there)
+        via = nxt('pipe-off', [x for x in ('wavelength', 'energy', 'dspacing', 'Q')])
+        if via not in dn and via != origin and 'energy' not in (via, target):
+            emit(base, nxt(('pipe', 'off'), [full, pos]), 'no_origin:pipeline', [], False, pre='pipeline', via=via)
+        for node in dn:
+            supply = _GROUPS.get(node, [node])
+            kind = 'target' if G.node_of(target) == node else 'intermediate'
+            sh = G.shallow_inputs(target, table, given=(*supply, *AUX))
+            subs = [[*sh, *extra]] if sh is not None else []
+            subs += [full, pos, extra] if kind == 'intermediate' else [nxt(('other', kind), [full, pos, extra, full])]
+            if 'energy' in (origin, target):
+                subs.append([*pos, en])          # elastic energy on data with an inelastic coordinate: ambiguous
+            elif extra:
+                subs += [pos, [*pos, 'incident_energy', 'final_energy']]   # no / both fixed energies: mode undetermined
+            done = []
+            for sub in subs:
+                if set(sub) not in done:
+                    done.append(set(sub))
+                    emit(base, sub, 'no_origin:' + kind, supply, True)
+            emit(base, nxt(('with', kind), [full, pos, [*(sh or ()), *extra]]), 'with_origin:' + kind, supply, False)
+            via = target if kind == 'target' else supply[0]
+            if via in G.TARGETS:
+                emit(base, nxt(('pipe', kind), [full, pos]), 'no_origin:pipeline', [], False, pre='pipeline', via=via)
+    return out
+
+
 # ------------------------------------------------------------ first call in a fresh interpreter ---
 # (o) The answer does not depend on what the process imported or called before: a new interpreter that imports only
 # numpy / scipp (to hold the data) and the module that defines convert() gives, on its first calls, the outcome the
@@ -1648,13 +1839,17 @@ def requirements(tier):
     ev['value:heavy'] = 12
     ev.update({'value:inplace': 100, 'value:neutral': 60, 'value:sizes': 100, 'value:unicode': 30,
                'unicode:origin': 50, 'fresh_interpreter': 12, 'alias:argument_written': 1000, 'alias:result_written': 1000,
-               'alias:repeat': 1000})
+               'alias:repeat': 1000, 'value:origin': 300})
     counters = {'model:ok': 1000, 'model:refuse': 1000, 'contents:empty:ok': 200, 'contents:empty:refuse': 200}
     # every class met derivable and refused configurations (variances: derivable only)
     for c in AXIS_CLASSES:
         counters[f'class:{c}:ok'] = 5
         if not c.startswith('var:') and c != 'second:after_refusal':
             counters[f'class:{c}:refuse'] = 5
+    for c in ORIGIN_CLASSES:
+        counters[f'class:{c}:ok'] = 20
+    counters.update({'class:no_origin:nothing:refuse': 20, 'class:no_origin:target:refuse': 10,
+                     'class:no_origin:intermediate:refuse': 3, 'class:no_origin:pipeline:refuse': 5})
     for c in STATE_CLASSES:
         if c not in ('unicode:target', 'unicode:origin'):
             counters[f'class:{c}:ok'] = 5 if c != 'neutral:pulse_time' else 3
@@ -1665,7 +1860,7 @@ def requirements(tier):
     counters['inplace:unit:coordinates_written'] = 50
     return {'events': ev, 'counters': counters,
             'forced': ['supplied coordinates unaligned', *CONTENTS.values(), *AXIS_CLASSES.values(),
-                       *HEAVY_CLASSES.values(), *STATE_CLASSES.values(), FRESH_CLASS]}
+                       *HEAVY_CLASSES.values(), *STATE_CLASSES.values(), *ORIGIN_CLASSES.values(), FRESH_CLASS]}
 
 
 def _run_variants(ctx, shard, items, run_one, tag_of, max_samples):
@@ -1756,6 +1951,16 @@ def run(shard, ctx):
             run_config(vrng, ctx, scn, CV, watch, index, tr, variant=variant)
 
         _run_variants(ctx, shard, splan[shard['part']::shard['parts']], one, axis_tag, 8)
+        # origin coordinate absent / intermediate quantities supplied: derivable from what is present is not refused
+        oplan = origin_plan(shard['seed'])
+        ctx.extra['origin_class_cases'] = len(oplan)
+
+        def one(k, index, variant):
+            vrng = np.random.Generator(np.random.PCG64([shard['seed'], index, 7, k]))
+            run_config(vrng, ctx, scn, CV, watch, index, tr, variant=variant)
+
+        _run_variants(ctx, shard, oplan[shard['part']::shard['parts']], one,
+                      lambda v: ('class', *v['axis']['cls'], *v['axis']['supply'], v['axis'].get('via', '')), 8)
     # (o) one new interpreter per shard 0..3 (one origin each), three calls in each
     if shard['part'] < 4:
         fresh_interpreter(ctx, shard, scn)
